@@ -44,11 +44,22 @@ type FnContract struct {
 	Calls    []CallSpec
 	Counts   []*Clause // postconditions over count(...) — same as ensures but kept apart for naming
 	PanicsIf []*Clause
+	Ghost    []GhostAssign
 	Options  map[string]string
 	File     string
 	Line     int
 	HasSpec  bool // has requires/ensures/modifies (usable at call sites)
 	// for closures: names given to free variables are the source names
+}
+
+type GhostMap struct{ Name, Key, Val string }
+
+type GhostAssign struct {
+	Map  string
+	Key  Expr
+	Val  Expr
+	Text string
+	Line int
 }
 
 type Lemma struct {
@@ -66,7 +77,7 @@ type GlobalSpecs struct {
 }
 
 var clauseKw = map[string]bool{"func": true, "arith": true, "trusted": true, "pure": true, "requires": true, "ensures": true, "modifies": true, "loop": true,
-	"invariant": true, "callsite": true, "lemma": true, "axiom": true, "inline": true, "panics": true, "option": true, "unroll": true, "callers": true, "stores": true, "spec": true}
+	"invariant": true, "callsite": true, "lemma": true, "axiom": true, "inline": true, "panics": true, "option": true, "unroll": true, "callers": true, "stores": true, "spec": true, "ghost": true}
 
 var nameRe = regexp.MustCompile(`^([A-Za-z_][A-Za-z0-9_\-]*):\s+(.*)$`)
 
@@ -183,6 +194,48 @@ func (w *World) readContractFile(path string) error {
 			if err := w.parseSpec(l, path); err != nil {
 				return err
 			}
+			continue
+		case "ghost":
+			// global:      ghost map NAME KEYTYPE VALTYPE
+			// in contract: ghost NAME[key] = expr        (executed after the call / at function exit)
+			f := strings.Fields(l.rest)
+			if len(f) == 4 && f[0] == "map" {
+				if w.GhostMaps == nil {
+					w.GhostMaps = map[string]*GhostMap{}
+				}
+				w.GhostMaps[f[1]] = &GhostMap{Name: f[1], Key: f[2], Val: f[3]}
+				continue
+			}
+			if cur == nil {
+				return fmt.Errorf("line %d: ghost assignment outside func", l.line)
+			}
+			i := strings.Index(l.rest, "=")
+			for i > 0 && i+1 < len(l.rest) && (l.rest[i+1] == '=' || l.rest[i-1] == '!' || l.rest[i-1] == '<' || l.rest[i-1] == '>' || l.rest[i-1] == '=') {
+				j := strings.Index(l.rest[i+2:], "=")
+				if j < 0 {
+					i = -1
+					break
+				}
+				i = i + 2 + j
+			}
+			if i <= 0 {
+				return fmt.Errorf("line %d: ghost NAME[key] = expr", l.line)
+			}
+			lhs, err := ParseExpr(strings.TrimSpace(l.rest[:i]))
+			if err != nil {
+				return fmt.Errorf("line %d: %v", l.line, err)
+			}
+			ix, ok := lhs.(EIndex)
+			id, ok2 := ix.X.(EIdent)
+			if !ok || !ok2 {
+				return fmt.Errorf("line %d: ghost assignment target must be NAME[key]", l.line)
+			}
+			rhs, err := ParseExpr(strings.TrimSpace(l.rest[i+1:]))
+			if err != nil {
+				return fmt.Errorf("line %d: %v", l.line, err)
+			}
+			cur.Ghost = append(cur.Ghost, GhostAssign{Map: id.Name, Key: ix.I, Val: rhs, Text: l.rest, Line: l.line})
+			cur.HasSpec = true
 			continue
 		case "lemma", "axiom":
 			c, err := mk(l, true)
